@@ -24,6 +24,7 @@ import (
 	"strconv"
 	"strings"
 	"sync"
+	"syscall"
 	"testing"
 	"time"
 )
@@ -99,6 +100,10 @@ type R struct {
 	assume    []string
 	rule      string
 	floors    map[string]int64
+	budget    float64 // CaseCPUBudget
+	budgetKey string
+	running   map[*Case]float64
+	finished  bool
 	inconc    []string
 	extra     map[string]any
 	crumb     *os.File
@@ -342,9 +347,88 @@ func (r *R) writeCrumb(slot int, stream string, index int) {
 	r.crumb.WriteAt(b[:128], int64(slot)*128)
 }
 
+// CaseCPUBudget arms a guard for cases that never finish (a goroutine of the code under test
+// spinning, or a bubble that can never become idle): a case that is still running after the
+// PROCESS has burnt more than sec CPU-seconds since the case started is reported as a violation
+// (key given by the monitor) with the stacks of the goroutines that are running or runnable, the
+// result is written and the process exits, because such a case cannot be waited for. CPU time,
+// not wall-clock: a loaded machine slows the process down and the budget with it. A normal case
+// takes milliseconds, so sec is chosen in the hundreds.
+func (r *R) CaseCPUBudget(sec float64, key string) {
+	r.mu.Lock()
+	first := r.budget == 0
+	r.budget, r.budgetKey = sec, key
+	r.mu.Unlock()
+	if !first || sec <= 0 {
+		return
+	}
+	go func() {
+		for {
+			time.Sleep(250 * time.Millisecond)
+			now := processCPU()
+			r.mu.Lock()
+			var late *Case
+			for c, t0 := range r.running {
+				if now-t0 > r.budget {
+					late = c
+					break
+				}
+			}
+			key, done := r.budgetKey, r.finished
+			r.mu.Unlock()
+			if done {
+				return
+			}
+			if late == nil {
+				continue
+			}
+			buf := make([]byte, 8<<20)
+			buf = buf[:runtime.Stack(buf, true)]
+			var busy []string
+			for _, g := range strings.Split(string(buf), "\n\n") {
+				hd, _, _ := strings.Cut(g, "\n")
+				if (strings.Contains(hd, "[running") || strings.Contains(hd, "[runnable")) && strings.Contains(g, "golang.org/x/net/") && !strings.Contains(g, "CaseCPUBudget") {
+					if len(g) > 3000 {
+						g = g[:3000]
+					}
+					busy = append(busy, g)
+				}
+			}
+			if len(busy) > 6 {
+				busy = busy[:6]
+			}
+			late.Violation(key, "case %s/%d has not finished although the process has burnt more than %.0f CPU-seconds since it started (a normal case takes milliseconds); goroutines that are running or runnable in golang.org/x/net code:\n%s", late.Stream, late.Index, r.budget, strings.Join(busy, "\n\n"))
+			r.exitAbn = true
+			r.Finish()
+			os.Exit(1)
+		}
+	}()
+}
+
+func processCPU() float64 {
+	var ru syscall.Rusage
+	if syscall.Getrusage(syscall.RUSAGE_SELF, &ru) != nil {
+		return 0
+	}
+	return float64(ru.Utime.Sec+ru.Stime.Sec) + float64(ru.Utime.Usec+ru.Stime.Usec)/1e6
+}
+
 func (r *R) runCase(stream string, i, slot int, fn func(c *Case)) {
 	c := &Case{R: r, Stream: stream, Index: i, Rng: r.Rand(stream, i), slot: slot}
 	r.writeCrumb(slot, stream, i)
+	r.mu.Lock()
+	if r.budget > 0 {
+		if r.running == nil {
+			r.running = map[*Case]float64{}
+		}
+		r.running[c] = processCPU()
+	}
+	r.mu.Unlock()
+	defer func() {
+		r.mu.Lock()
+		delete(r.running, c)
+		r.mu.Unlock()
+	}()
 	defer func() {
 		if e := recover(); e != nil {
 			st := string(debug.Stack())
@@ -445,6 +529,10 @@ func (r *R) CasesParallel(stream string, n, workers int, fn func(c *Case)) {
 func (r *R) Finish() {
 	r.mu.Lock()
 	defer r.mu.Unlock()
+	if r.finished {
+		return
+	}
+	r.finished = true
 	if r.Replay == nil {
 		kinds := make([]string, 0, len(r.floors))
 		for k := range r.floors {
